@@ -27,6 +27,9 @@ pub enum Op {
     /// like Burst, but the peer then does not read anything for this many seconds (its receive window stays closed
     /// while the client is in the middle of writing an answer), and reads everything afterwards
     BurstThenStall(u8, u8),
+    /// the connection's task is not scheduled while the manager carries out this many choke rotations (21 s apart); then
+    /// it runs again and has to catch up with what the manager decided meanwhile
+    LateRotations(u8),
 }
 
 #[derive(Clone, Debug, Serialize, Deserialize)]
@@ -67,6 +70,7 @@ fn strategy() -> BoxedStrategy<Case> {
                 2 => Just(Op::ServeClient),
                 1 => Just(Op::UnchokeClient),
                 1 => (8u8..48).prop_map(Op::Burst),
+                1 => (1u8..9).prop_map(Op::LateRotations),
                 1 => (24u8..48, prop_oneof![Just(3u8), Just(9), Just(11), Just(13), Just(25), 1u8..40]).prop_map(|(n, s)| Op::BurstThenStall(n, s)),
             ];
             let valid = (1u32..2, 0u32..8, 1u32..=32).prop_map(|(i, b, l)| Op::Request(i, b, l));
@@ -123,12 +127,24 @@ pub fn case_from_bytes(data: &[u8]) -> Case {
             10 | 11 => Op::Rotate,
             12 | 13 => Op::ServeClient,
             14 => Op::UnchokeClient,
-            15 if r.bool() => Op::BurstThenStall(24 + r.u8() % 24, 1 + r.u8() % 40),
+            15 if r.bool() => {
+                if r.bool() {
+                    Op::BurstThenStall(24 + r.u8() % 24, 1 + r.u8() % 40)
+                } else {
+                    Op::LateRotations(1 + r.u8() % 8)
+                }
+            }
             _ => Op::Burst(8 + r.u8() % 40),
         };
         ops.push(op);
     }
     Case { have_only, piece_len, last_len, ops, seed }
+}
+
+/// The manager's own record: does the client choke this peer? (At a quiescent barrier the connection task has been told
+/// every decision; "it answers only while it has that peer unchoked" is judged by the stricter of record and wire.)
+fn manager_chokes(w: &World, addr: &str) -> bool {
+    w.snapshot().peers.iter().find(|p| p.addr == addr).map(|p| p.am_choked).unwrap_or(false)
 }
 
 struct Req {
@@ -193,7 +209,7 @@ pub fn check(c: &Case) -> Outcome {
                 }
                 match op {
                     Op::Request(i, b, l) => {
-                        let unchoked = !net.peers[p].view.client_chokes_us;
+                        let unchoked = !net.peers[p].view.client_chokes_us && !manager_chokes(w, &net.peers[p].addr);
                         w.send_frame(conn, &RFrame::Request(*i, *b, *l));
                         reqs.push(Req { i: *i, b: *b, l: *l, unchoked_when_sent: unchoked, answers: 0, op: k });
                         if !unchoked {
@@ -204,7 +220,7 @@ pub fn check(c: &Case) -> Outcome {
                         }
                     }
                     Op::Burst(cnt) | Op::BurstThenStall(cnt, _) => {
-                        let unchoked = !net.peers[p].view.client_chokes_us;
+                        let unchoked = !net.peers[p].view.client_chokes_us && !manager_chokes(w, &net.peers[p].addr);
                         if let Op::BurstThenStall(_, secs) = op {
                             w.not_reading.insert(conn);
                             if unchoked {
@@ -228,6 +244,22 @@ pub fn check(c: &Case) -> Outcome {
                             w.advance_by(std::time::Duration::from_secs(*secs as u64)).await;
                             w.not_reading.remove(&conn);
                         }
+                    }
+                    Op::LateRotations(k) => {
+                        w.frozen.insert(conn);
+                        for _ in 0..*k {
+                            w.advance_by(std::time::Duration::from_secs(21)).await;
+                            net.fold(w);
+                            let r = swarm::CatchUnwind(Box::pin(w.session.verif_rotate())).await;
+                            match r {
+                                Ok(Ok(())) => {}
+                                Ok(Err(e)) => fails.push(("rotation-error".into(), format!("{}", e))),
+                                Err(pn) => fails.push(("rotation-panic".into(), pn)),
+                            }
+                        }
+                        w.frozen.remove(&conn);
+                        classes.push("rotation");
+                        classes.push("rotations-while-the-task-is-not-scheduled");
                     }
                     Op::ServeClient => {
                         if net.answer(w, p, 0).is_some() {
@@ -342,14 +374,14 @@ pub fn check(c: &Case) -> Outcome {
 pub fn def() -> PropDef {
     PropDef {
         id: "C09",
-        rule: "the client downloads its pieces from an honest set-up peer (piece length from {100,16384,16385,20000,40000}, generated last-piece length; 2- and 3-piece torrents so that an owned piece is also the short last one); then one peer with a valid handshake (in a quarter of the cases announcing its piece by Have only, supplying it to the client and asking for it back although the client never unchoked it) sends a history of up to 30 ops: Request(index,begin,length) from an edge-biased u32^3 (valid ranges, ranges ending exactly at / one beyond the piece end, length 0/16384/16385/2^31/2^32-1, begin near 2^32 so that begin+length wraps, index of a piece the client lacks or beyond the piece count, switching between owned pieces), interested / not-interested, the manager's real choke rotation after 21 virtual seconds (so the client really chokes and unchokes this peer), and bursts of 8..47 back-to-back full-block requests that are not read until all are sent; in a third of the cases the client's end of the connection has a 4 KiB kernel send buffer, so that its writes are accepted piecemeal; op BurstThenStall: after such a burst the remote reads nothing for 1-40 s (the client is blocked in the middle of writing an answer) and then reads everything. Oracle: every Piece frame answers exactly one earlier unanswered request with the same index, offset and length, carries exactly those bytes of the stored piece, <= 16 KiB, inside the piece, for an owned piece, and that request was sent while the client's last word to the peer was Unchoke; no task or manager panic. Non-trivial = at least one answered valid request and one request that must not be answered; distinct by hash of the case.",
+        rule: "the client downloads its pieces from an honest set-up peer (piece length from {100,16384,16385,20000,40000}, generated last-piece length; 2- and 3-piece torrents so that an owned piece is also the short last one); then one peer with a valid handshake (in a quarter of the cases announcing its piece by Have only, supplying it to the client and asking for it back although the client never unchoked it) sends a history of up to 30 ops: Request(index,begin,length) from an edge-biased u32^3 (valid ranges, ranges ending exactly at / one beyond the piece end, length 0/16384/16385/2^31/2^32-1, begin near 2^32 so that begin+length wraps, index of a piece the client lacks or beyond the piece count, switching between owned pieces), interested / not-interested, the manager's real choke rotation after 21 virtual seconds (so the client really chokes and unchokes this peer), and bursts of 8..47 back-to-back full-block requests that are not read until all are sent; in a third of the cases the client's end of the connection has a 4 KiB kernel send buffer, so that its writes are accepted piecemeal; op BurstThenStall: after such a burst the remote reads nothing for 1-40 s (the client is blocked in the middle of writing an answer) and then reads everything. Oracle: every Piece frame answers exactly one earlier unanswered request with the same index, offset and length, carries exactly those bytes of the stored piece, <= 16 KiB, inside the piece, for an owned piece, and that request was sent while the client's last word to the peer was Unchoke and the manager's own record had the peer unchoked (op LateRotations: the task is not scheduled during 1-8 rotations and must catch up); no task or manager panic. Non-trivial = at least one answered valid request and one request that must not be answered; distinct by hash of the case.",
         assumptions: &["requests are sent only after a quiescence barrier, so 'the client's last word' at the time a request is read is unambiguous"],
         subs: vec![Sub {
             name: "requests",
             cases: |t| t.pick(15_000, 200_000),
             run: |ctx| run_proptest(ctx, "requests", strategy(), check),
             replay: |v| replay_case::<Case>(v, check),
-            min_class: &[("valid-request-answered", 0.4), ("invalid-request-not-answered", 0.492), ("request-while-choked", 0.05), ("begin+length-wraps-u32", 0.0848), ("piece-switching", 0.03), ("rotation", 0.2207), ("client-choked-us", 0.03), ("peer-announced-by-have-only", 0.1), ("peer-supplied-a-block", 0.05), ("small-kernel-send-buffer", 0.15), ("answers-exceed-socket-buffer", 0.025), ("remote-stops-reading-for-more-than-10s", 0.035)],
+            min_class: &[("valid-request-answered", 0.4), ("invalid-request-not-answered", 0.492), ("request-while-choked", 0.05), ("begin+length-wraps-u32", 0.0848), ("piece-switching", 0.03), ("rotation", 0.2207), ("client-choked-us", 0.03), ("peer-announced-by-have-only", 0.1), ("peer-supplied-a-block", 0.05), ("small-kernel-send-buffer", 0.15), ("answers-exceed-socket-buffer", 0.025), ("remote-stops-reading-for-more-than-10s", 0.035), ("rotations-while-the-task-is-not-scheduled", 0.07)],
         }],
     }
 }
